@@ -274,5 +274,8 @@ def run(ctx):
     ctx.do(c10.r10_4)
     ctx.do(c10.r10_4_units)
     ctx.do(c12.r12_1)
+    from . import c13, c15
+    ctx.do(c13.r13_5)
+    ctx.do(c15.r15_3)
     for k, v in PAIR_EXEMPT.items():
         ctx.trust(f"frozen pairing exemption: {k} - {v}")
